@@ -396,17 +396,21 @@ Definition exec_pc (sh : shared) (r : req) : shared * req * status :=
       end
   (* ---- both roles: send_trailers (size check against the peer's limit, then the write) *)
   | SSendTrl | CSendTrl =>
-      if send_trailers_limit_cmp && over (match c_trl (cfg r) with Some z => z | None => 0 end) (peer_max sh)
-      then (sh, finish_with r (fs r) (RErr ASendTrl SHeaderTooBig) (tx r) (calls r), Stop)
-      else match write_err r sh with
-           | Some (sh', e) =>
-               if send_trailers_err_via_hq then (sh', finish_with r (fs r) (RErr ASendTrl e) (tx r) (calls r), Stop)
-               else let '(sh2, e2) := conn_error_on_stream H3_INTERNAL_ERROR sh in
-                    (sh2, finish_with r (fs r) (RErr ASendTrl e2) (tx r) (calls r), Stop)
-           | None =>
-               (sh, upd r (fs r) (match pcr r with SSendTrl => SFinish | _ => CFinish end)
-                        (acc r) (tx r ++ [WTrailers]) (calls r) None, Stop)
-           end
+      match c_trl (cfg r) with
+      | None => (sh, goto r (fs r) (match pcr r with SSendTrl => SFinish | _ => CFinish end), Stop)   (* not entered *)
+      | Some z =>
+          if send_trailers_limit_cmp && over z (peer_max sh)
+          then (sh, finish_with r (fs r) (RErr ASendTrl SHeaderTooBig) (tx r) (calls r), Stop)
+          else match write_err r sh with
+               | Some (sh', e) =>
+                   if send_trailers_err_via_hq then (sh', finish_with r (fs r) (RErr ASendTrl e) (tx r) (calls r), Stop)
+                   else let '(sh2, e2) := conn_error_on_stream H3_INTERNAL_ERROR sh in
+                        (sh2, finish_with r (fs r) (RErr ASendTrl e2) (tx r) (calls r), Stop)
+               | None =>
+                   (sh, upd r (fs r) (match pcr r with SSendTrl => SFinish | _ => CFinish end)
+                            (acc r) (tx r ++ [WTrailers]) (calls r) None, Stop)
+               end
+      end
   (* ---- both roles: recv_trailers *)
   | SRecvTrl | CRecvTrl =>
       match recv_trailers sh (pcr r) (trl r) (fs r) with
@@ -618,7 +622,8 @@ Definition request_ok (E : renv) (c : rcfg) (S : list ev) (r : req) : Prop :=
     end.
 
 Definition undisturbed (E : renv) (c : rcfg) : Prop :=
-  e_stop E = None /\ over (c_hsize c) (e_limit E) = false /\ (c_role c = Client -> e_goaway E = false).
+  e_stop E = None /\ over (c_hsize c) (e_limit E) = false /\
+  (forall z, c_trl c = Some z -> over z (e_limit E) = false) /\ (c_role c = Client -> e_goaway E = false).
 
 (* a request step may do one of two things to the shared state: nothing, or the first store to the error cell *)
 Definition sh_mono (s s' : shared) : Prop :=
